@@ -3,6 +3,7 @@ package props
 import (
 	"fmt"
 	"strconv"
+	"strings"
 	"testing"
 
 	"github.com/onheap/eval"
@@ -36,6 +37,15 @@ func hasLiteralForm(v interface{}) bool {
 }
 
 func elemStr(i int64) string { return "e" + strconv.FormatInt(i, 10) }
+
+// longElems maps the short element names to strings of 64..90 bytes (same equalities)
+func longElems(l []string) []string {
+	out := make([]string, len(l))
+	for i, s := range l {
+		out[i] = s + strings.Repeat("-long-element-padding", 3+len(s)%2) + s
+	}
+	return out
+}
 
 // genListPair builds two lists over a pool sized so that intersections are frequent but not certain.
 func genListPair(t *rapid.T, strs bool) (interface{}, interface{}) {
@@ -84,6 +94,9 @@ func genListPair(t *rapid.T, strs bool) (interface{}, interface{}) {
 	}
 	for i, v := range b {
 		sb[i] = elemStr(v)
+	}
+	if rapid.IntRange(0, 3).Draw(t, "longelems") == 0 {
+		return longElems(sa), longElems(sb)
 	}
 	return sa, sb
 }
@@ -418,6 +431,33 @@ func sweepC17(tier string, shard, shards int, emit func(C17Case)) {
 				}
 			}
 		}
+	}
+	// long string elements on both paths
+	for _, n := range []int{10, 49, 50, 60} {
+		a, b := make([]string, n), make([]string, n)
+		for i := range a {
+			a[i], b[i] = elemStr(int64(2*i)), elemStr(int64(2*i+1))
+		}
+		a[n-1], b[0] = "common", "common"
+		for _, lit := range []bool{false, true} {
+			emit(C17Case{Op: "overlap", A: m.V{X: longElems(a)}, B: m.V{X: longElems(b)}, ALit: lit, BLit: lit, Origin: "sweep-long-elements"})
+			emit(C17Case{Op: "in", A: m.V{X: longElems([]string{"common"})[0]}, B: m.V{X: longElems(b)}, ALit: true, BLit: lit, Origin: "sweep-long-elements"})
+		}
+	}
+	// pairs of different literals whose elements, joined by blanks, read the same
+	for _, n := range []int{3, 31, 32, 33, 64} {
+		fill := make([]string, n)
+		for i := range fill {
+			fill[i] = elemStr(int64(i))
+		}
+		l1 := append([]string{"a b", "c"}, fill...)
+		l2 := append([]string{"a", "b c"}, fill...)
+		for _, probe := range []string{"a b", "b c", "a", "c"} {
+			emit(C17Case{Op: "in", A: m.V{X: probe}, B: m.V{X: l1}, ALit: true, BLit: true, Origin: "sweep-same-joined-text"})
+			emit(C17Case{Op: "in", A: m.V{X: probe}, B: m.V{X: l2}, ALit: true, BLit: true, Origin: "sweep-same-joined-text"})
+		}
+		emit(C17Case{Op: "overlap", A: m.V{X: []string{"a b"}}, B: m.V{X: l2}, ALit: true, BLit: true, Origin: "sweep-same-joined-text"})
+		emit(C17Case{Op: "overlap", A: m.V{X: []string{"a b"}}, B: m.V{X: l1}, ALit: true, BLit: true, Origin: "sweep-same-joined-text"})
 	}
 	// the empty literal against every shape
 	for _, other := range []interface{}{[]int64{1, 2}, []string{"a"}, []int64{}, []string{}} {
